@@ -35,13 +35,28 @@ RULE = ("dense parameter grids (cut-off/centre in [1e-3, pi-1e-3], bandwidth in 
         "object called on 1-4 signals (list / tuple / Stream / generator / iterator) whose outputs are alive together and "
         "consumed sequentially / round-robin / randomly (entry combhist); constant lowpass / highpass / resonator / gammatone "
         "designs run for 2000-5000 (thorough 20000) samples against the C04 difference equation on the model "
-        "coefficients (entry run); a case is non-trivial when the "
+        "coefficients (entry run); "
+        "CALL SHAPES (gen_calls): every StrategyDict called directly (default strategy: lowpass=pole, highpass=z, resonator=poles_exp, "
+        "comb=fb, gammatone=sampled, erb=gm90; the call must also equal the named default strategy's), every strategy by [] / "
+        "attribute / alias name with positional / keyword / mixed arguments (every strategy at least once all-keyword), parameters "
+        "LEFT OUT (comb alpha, comb.tau tau, gammatone.sampled phase / eta / both, erb Hz), parameters spelled as int / bool / "
+        "Fraction where the value allows, gammatone.sampled for every eta 1..6 with zero and non-zero phase, cut-offs and centre "
+        "frequencies written `f * Hz` with sHz(rate), boundary cut-offs 0 / 1e-9 / 1e-5 / pi-1e-5 / pi-1e-9 / pi (coefficients only), "
+        "erb with Hz omitted on both sides of the 7 Hz refusal (7.0, the double below it, ints, Fractions), erb over list / tuple / "
+        "Stream / generator with and without an item that is refused (entry erbmap); a case is non-trivial when the "
         "implementation returned a filter (no exception; history: at least one instant read and no unexpected exception); "
         "distinct = distinct JSON case")
 TRUSTED = [
     "hand-written generic Lean transcription ALV/Model/C13.lean of the design strategies (modelled, not verified: "
     "ZFilter/Poly operator plumbing that turns the design expression into coefficients, thub/Stream broadcasting)",
-    "Float evaluation of the model (Lean runtime, C libm) vs CPython floats: compared with tolerance 1e-9*(1+|x|)",
+    "Float evaluation of the model (Lean runtime, C libm) vs CPython floats: the model copies the code's operation order, so the "
+    "coefficients of lowpass / highpass / resonator / comb / klapuri designs (constant, Stream-valued and in histories), erb and "
+    "gammatone_erb_constants are compared within 4 ulp of the largest coefficient (measured on this machine: bit-exact, histogram "
+    "coef_ulp; the 4 ulp leave room for another libm); gammatone.sampled / slaney sections are divided by a MEASURED gain "
+    "(abs(freq_response)) and are compared up to one common factor within 1e-9 + 64 ulp * condition number",
+    "call shapes: which python call a case stands for (strategy lookup, positional / keyword, omitted parameters, numeric type) is "
+    "built by harness/props/c13.py:_real_call; the Lean side sees only which parameters are absent (ALV/Model/C13Call.lean) - that "
+    "`lowpass.pole`, `lowpass['pole']` and an alias are the same function object is StrategyDict's job (extra checks alias:*)",
     "poles of the real filter are computed by the harness from filt.denominator (closed form, orders 1 and 2)",
     "histories: the constant designs of the model are pure functions of their arguments, so 'a design does not depend on "
     "earlier calls, on the type of a number that compares equal, or on which other designs exist' holds for the model by "
@@ -66,8 +81,13 @@ ASSUMPTIONS = [
     "the differentiated numerator never vanishes at the centre frequency: closed form with Eulerian polynomials, "
     "gammatone_sampled_numerator_closed_form / _ne_zero) - over the reals; for eta >= 5 near 0 or pi the Float evaluation "
     "is dominated by rounding (see the tolerance line below)",
-    "the branch `if not denR: denR = 1` of lowpass.z / highpass.z is unreachable with binary floats (no double has "
-    "cos(x) == 0); it is covered by the theorems (cut-off pi/2 over the reals), not by the tie",
+    "the branch `if not denR: denR = 1` of lowpass.z / highpass.z (lazy_filters.py 1407, 1423, the only anchored lines of the "
+    "property no case executes) is unreachable with binary floats (no double has cos(x) == 0); it is covered by the theorems "
+    "(cut-off pi/2 over the reals), not by the tie; phon2dB (lazy_auditory.py 261-290, listed by the anchor tool) needs scipy and "
+    "is not part of the property",
+    "erb / gammatone_erb_constants have no clause in the property text; their documented behaviour is what is proved and tied "
+    "(closed forms, units, the Hz=None refusal below 7, elementwise mapping, the 1/a_n and 3 dB identities)",
+    "boundary cut-offs 0 and pi (outside the contract's quantifier): only the coefficients are compared with the model",
     "histories: 'sample by sample' is read as: a design pulls exactly one value of each Stream-valued parameter for every "
     "instant of its coefficients, when that instant is first requested, and none when it is built (otherwise a ControlStream "
     "changed by the caller would act late, and designs sharing one Stream would not get consecutive values); the pull counts "
@@ -85,14 +105,18 @@ ASSUMPTIONS = [
     "freq_response evaluation (sum|c_k| / |sum c_k z^k|); for gammatone.sampled with eta >= 5 at centre frequencies "
     "within ~1e-2 of 0 or pi rounding dominates and the unit-gain check becomes vacuous (histogram gammatone_gain_tolerance)",
 ]
-MANIFEST = {"text": "Lean 4 theorems (57, no sorry/axiom, no PENDING statement) over R about the generic [TrigField] design "
+MANIFEST = {"text": "Lean 4 theorems (72, no sorry/axiom, no PENDING statement) over R about the generic [TrigField] design "
                     "definitions the driver runs at Float: lowpass/highpass gains, half power, monotonicity, pole radii (8 strategies); "
                     "resonators: unit gain, stability, pole radius exp(-bw/2), for z_exp exactly on |cos f| <= 1/cosh(bw/2) (iff; outside "
                     "it a real pole of larger modulus: recorded finding); combs = their difference equations; gammatone slaney / klapuri / "
                     "sampled: EVERY section has unit gain at the centre frequency and poles A e^{+-jf}, A = e^{-bw} < 1 - for sampled for "
                     "every order eta and phase (the numerator after eta-1 passes of ZFilter.diff(mul_after=-z) in closed form with "
-                    "Eulerian polynomials; it never vanishes at e^{jf}); histories of designs sharing parameter objects; tied to /repo "
-                    "by a differential correspondence (Float twin, tol 1e-9) run on every check",
+                    "Eulerian polynomials; it never vanishes at e^{jf}); histories of designs sharing parameter objects; the calls with "
+                    "omitted parameters / default strategies (Option-valued call model), erb closed forms / units / monotonicity / Hz=None "
+                    "refusal / elementwise mapping, gammatone_erb_constants closed form and 3 dB identity, the time-domain run the driver "
+                    "evaluates (runFilter over C04.fspec) = the comb recursions pointwise incl. n < delay; tied to /repo by a "
+                    "differential correspondence (Float twin in the code's operation order, coefficients within 4 ulp - measured "
+                    "bit-exact) run on every check over call shapes, numeric spellings, units and boundary cut-offs",
             "technique": "Lean 4 proof over R of generic [TrigField] design definitions + Float twin tied to the implementation "
                          "+ histories of designs sharing parameter objects (Lean state machine = state-free spec, proved) "
                          "+ long-delay / long-run time-domain runs against the difference equations"}
@@ -107,13 +131,119 @@ LP_STRATS = ["pole", "z", "pole_exp", "z_exp"]
 RES_STRATS = ["poles_exp", "freq_poles_exp", "z_exp", "freq_z_exp"]
 COMB_STRATS = ["fb", "tau", "ff"]
 GT_STRATS = ["sampled", "slaney", "klapuri"]
+# what a StrategyDict called directly / a parameter left out means (lazy_filters.py, lazy_auditory.py): the Lean side
+# of the same table is ALV/Model/C13Call.lean (lowpassCall ... erbCall), theorem calls_with_omitted_parameters
+DEFAULT_STRATEGY = {"lowpass": "pole", "highpass": "z", "resonator": "poles_exp", "comb": "fb", "gammatone": "sampled",
+                    "erb": "gm90"}
+ALIASES = {("comb", "fb"): ["alpha", "fb_alpha", "feedback_alpha"], ("comb", "tau"): ["fb_tau", "feedback_tau"],
+           ("comb", "ff"): ["ff_alpha", "feedforward_alpha"],
+           ("erb", "gm90"): ["glasberg_moore_90", "glasberg_moore"], ("erb", "mg83"): ["moore_glasberg_83"]}
+HARNESS_KEYS = ("via", "args", "spell", "nocontract", "rate", "fhz", "sig")   # never sent to the driver
+UTOL = 4             # coefficients of the designs whose operation order the model copies: within 4 ulp of the largest
+#                      coefficient (measured: bit-exact, same libm on both sides; histogram coef_ulp)
+
+
+def _strategy(c):
+    return c.get("strategy", DEFAULT_STRATEGY.get(c["entry"], ""))
+
+
+def _param_names(c):
+    """(case key, python parameter name) of the call, in positional order"""
+    e = c["entry"]
+    if e in ("lowpass", "highpass"):
+        return [("cutoff", "cutoff")]
+    if e == "resonator":
+        return [("freq", "freq"), ("bandwidth", "bandwidth")]
+    if e == "comb":
+        return [("delay", "delay"), ("param", "tau" if _strategy(c) == "tau" else "alpha")]
+    if e == "gammatone":
+        return [("freq", "freq"), ("bandwidth", "bandwidth")] + (
+            [("phase", "phase"), ("eta", "eta")] if _strategy(c) == "sampled" else [])
+    if e == "erb":
+        return [("freq", "freq"), ("Hz", "Hz")]
+    raise KeyError(e)
+
+
+def _spelled(v, how):
+    """the python object for the float value v in another numeric type (exact: Fraction(float) is the binary value)"""
+    from fractions import Fraction
+    if how == "int":
+        assert v == int(v)
+        return int(v)
+    if how == "bool":
+        assert v in (0.0, 1.0)
+        return bool(v)
+    if how == "frac":
+        return Fraction(v)
+    return v
+
+
+def _default_ref(c, got):
+    """a StrategyDict called directly must be the documented default strategy called with the same arguments: the
+    coefficient lists of both calls (same code, so identical) - None when the case names its strategy"""
+    if "strategy" in c:
+        return None
+    import audiolazy as al
+    fn, a, kw = _real_call(dict(c, strategy=DEFAULT_STRATEGY[c["entry"]]))
+    ref = fn(*a, **kw)
+    secs = list(ref) if isinstance(ref, al.CascadeFilter) else [ref]
+    mine = list(got) if isinstance(got, al.CascadeFilter) else [got]
+    pair = lambda fs: [[[enc(float(x)) for x in f.numerator], [enc(float(x)) for x in f.denominator]] for f in fs]
+    return {"default": DEFAULT_STRATEGY[c["entry"]], "same": pair(secs) == pair(mine)}
+
+
+def _real_call(c):
+    """the real call of a plain design case: which object is called (`via`: the strategy looked up with [] / as an
+    attribute / under an alias name / not at all = the StrategyDict itself, i.e. its default), how the arguments travel
+    (`args`: positional / keyword / first positional, rest keyword), in which numeric type (`spell`); a key that is
+    absent from the case is a parameter LEFT OUT of the call"""
+    import audiolazy as al
+    e = c["entry"]
+    sd = getattr(al, e)
+    via = c.get("via", "item")
+    if "strategy" not in c:
+        fn = sd
+    elif via == "attr":
+        fn = getattr(sd, c["strategy"])
+    elif via.startswith("alias:"):
+        fn = sd[via[6:]]
+    else:
+        fn = sd[c["strategy"]]
+    spell = c.get("spell", {})
+    vals = []
+    for key, pname in _param_names(c):
+        if key not in c:
+            continue
+        if key in ("delay", "eta"):
+            v = c[key]
+        else:
+            v = _fl(c[key])
+        if "rate" in c and key in ("cutoff", "freq", "Hz"):
+            Hz = al.sHz(c["rate"])[1]          # units: `fhz * Hz` as the docs write it
+            v = Hz if key == "Hz" else _fl(c["fhz"]) * Hz
+        vals.append((pname, _spelled(v, spell.get(key, "float"))))
+    how = c.get("args", "pos")
+    if how == "pos":
+        # a parameter after an omitted one can only travel by keyword
+        names = [k for k, _ in _param_names(c)]
+        present = [k in c for k in names]
+        npos = present.index(False) if False in present else len(names)
+        return fn, [v for _, v in vals[:npos]], dict(vals[npos:])
+    if how == "kw":
+        return fn, [], dict(vals)
+    return fn, [vals[0][1]], dict(vals[1:])
 
 
 # ----------------------------------------------------------------------------------------------
 # generation
 # ----------------------------------------------------------------------------------------------
 def _f(x):
-    return enc(float(x))
+    """enc(float(x)) without the detour through Fraction (same encoding: int or 'p/q' in lowest terms)"""
+    x = float(x)
+    if x != x or x in (float("inf"), float("-inf")):
+        return enc(x)
+    p, q = x.as_integer_ratio()
+    return p if q == 1 else "%d/%d" % (p, q)
 
 
 def _rand_freq(rng):
@@ -236,13 +366,180 @@ def generate(rng, tier, scale=1):
     # time domain; one comb filter object run on several signals at once (harness/props/c13_hist.py)
     cases.extend(hist.gen_hist(rng, tier, scale))
     cases.extend(hist.gen_long(rng, tier, scale))
+    cases.extend(gen_calls(rng, tier, scale))
     return cases
 
+
+
+def _shape(rng, c, allow_default=True):
+    """dress a plain design case with a call shape: how the strategy is reached and how the arguments travel"""
+    e = c["entry"]
+    via = rng.choice(["item", "attr", "alias", "default"])
+    if via == "default" and allow_default and c.get("strategy") == DEFAULT_STRATEGY[e]:
+        del c["strategy"]
+    elif via == "alias" and (e, c.get("strategy")) in ALIASES:
+        c["via"] = "alias:" + rng.choice(ALIASES[(e, c["strategy"])])
+    elif via == "attr":
+        c["via"] = "attr"
+    c["args"] = rng.choice(["pos", "kw", "mixed"])
+    return c
+
+
+def _spell_some(rng, c):
+    """another numeric type for every parameter whose value it can carry exactly"""
+    sp = {}
+    for k in ("cutoff", "freq", "bandwidth", "param", "phase", "Hz"):
+        if k in c and not isinstance(c[k], list):
+            v = _fl(c[k])
+            if v != v or v in (float("inf"), float("-inf")):
+                continue
+            kinds = ["frac"] + (["int"] if v == int(v) else []) + (["bool"] if v in (0.0, 1.0) else [])
+            t = rng.choice(kinds + ["float"])
+            if t != "float":
+                sp[k] = t
+    if sp:
+        c["spell"] = sp
+    return c
+
+
+def gen_calls(rng, tier, scale=1):
+    """call shapes (default strategies, aliases, attribute / item access, positional / keyword arguments, omitted
+    parameters), numeric spellings, units, boundary cut-offs, the erb branches"""
+    quick = tier == "quick"
+    reps = (1 if quick else 6) * scale
+    cases = []
+    for _ in range(reps):
+        # --- every default strategy called through the StrategyDict itself, positional and keyword
+        for args in ("pos", "kw"):
+            cases.append({"entry": "lowpass", "cutoff": _f(_rand_freq(rng)), "args": args})
+            cases.append({"entry": "highpass", "cutoff": _f(_rand_freq(rng)), "args": args})
+            cases.append({"entry": "resonator", "freq": _f(_rand_freq(rng)), "bandwidth": _f(_rand_bw(rng)), "args": args})
+            d = rng.randint(1, 6)
+            cases.append({"entry": "comb", "delay": d, "param": _f(rng.randint(-15, 15) / 16.0), "xs": _xs(rng, 2 * d + 3), "args": args})
+            cases.append({"entry": "gammatone", "freq": _f(rng.uniform(0.3, 2.8)), "bandwidth": _f(_rand_bw(rng)), "args": args})
+        # --- every strategy of every StrategyDict with all arguments by keyword
+        for band in ("lowpass", "highpass"):
+            for st in LP_STRATS:
+                cases.append({"entry": band, "strategy": st, "cutoff": _f(_rand_freq(rng)), "args": "kw", "via": "attr"})
+        for st in RES_STRATS:
+            cases.append({"entry": "resonator", "strategy": st, "freq": _f(rng.uniform(0.6, 2.5)), "bandwidth": _f(_rand_bw(rng)),
+                          "args": "kw", "via": "attr"})
+        for st in COMB_STRATS:
+            d = rng.randint(1, 5)
+            cases.append({"entry": "comb", "strategy": st, "delay": d, "param": _f(rng.choice([0.5, 2.0, -0.75])),
+                          "xs": _xs(rng, 2 * d + 2), "args": "kw"})
+        for st in GT_STRATS:
+            c = {"entry": "gammatone", "strategy": st, "freq": _f(rng.uniform(0.5, 2.6)), "bandwidth": _f(_rand_bw(rng)), "args": "kw"}
+            if st == "sampled":
+                c.update(phase=_f(rng.uniform(-1, 1)), eta=rng.randint(1, 4))
+            cases.append(c)
+        # --- omitted parameters
+        for st in (None, "fb", "tau", "ff"):
+            d = rng.randint(1, 7)
+            c = {"entry": "comb", "delay": d, "xs": _xs(rng, 3 * d + 2), "args": rng.choice(["pos", "kw"])}
+            if st:
+                c["strategy"] = st
+                if rng.random() < 0.5:
+                    c["via"] = rng.choice(["attr", "alias:" + rng.choice(ALIASES[("comb", st)])])
+            cases.append(c)
+        for omit in (("phase",), ("eta",), ("phase", "eta"), ()):
+            for with_st in (True, False):
+                c = {"entry": "gammatone", "strategy": "sampled", "freq": _f(rng.uniform(0.3, 2.8)), "bandwidth": _f(_rand_bw(rng)),
+                     "phase": _f(rng.uniform(-PI, PI)), "eta": rng.choice([1, 2, 3, 5, 6]),
+                     "args": rng.choice(["pos", "kw", "mixed"])}
+                for k in omit:
+                    del c[k]
+                if not with_st:
+                    del c["strategy"]
+                elif rng.random() < 0.5:
+                    c["via"] = "attr"
+                cases.append(c)
+        # --- every strategy under every way to reach it, arguments positional / keyword, other numeric types
+        for band in ("lowpass", "highpass"):
+            for st in LP_STRATS:
+                v = rng.choice([1.0, 2.0, 3.0, 0.5, 1.5, _rand_freq(rng)])
+                cases.append(_spell_some(rng, _shape(rng, {"entry": band, "strategy": st, "cutoff": _f(v)})))
+        for st in RES_STRATS:
+            f = rng.choice([1.0, 2.0, 0.75, _rand_freq(rng)]) if st != "z_exp" else rng.choice([1.0, 2.0, 1.5])
+            bw = rng.choice([1.0, 0.5, 0.125, _rand_bw(rng)])
+            cases.append(_spell_some(rng, _shape(rng, {"entry": "resonator", "strategy": st, "freq": _f(f), "bandwidth": _f(bw)})))
+        for st in COMB_STRATS:
+            for _k in range(2):
+                d = rng.randint(1, 8)
+                p = rng.choice([1.0, 2.0, 0.5, 40.0, float("inf")]) if st == "tau" else rng.choice([1.0, 0.0, -1.0, 0.5, -0.25])
+                cases.append(_spell_some(rng, _shape(rng, {"entry": "comb", "strategy": st, "delay": d, "param": _f(p),
+                                                            "xs": _xs(rng, 2 * d + 3)})))
+        for st in GT_STRATS:
+            c = {"entry": "gammatone", "strategy": st, "freq": _f(rng.choice([1.0, 2.0, 0.5, rng.uniform(0.3, 2.8)])),
+                 "bandwidth": _f(rng.choice([1.0, 0.5, 0.0625, _rand_bw(rng)]))}
+            if st == "sampled":
+                c["phase"] = _f(rng.choice([0.0, 1.0, -0.5, rng.uniform(-PI, PI)]))
+                c["eta"] = rng.randint(1, 6)
+            c = _shape(rng, c)
+            if st != "sampled":            # normalised by a measured gain: exact Fractions change the rounding of freq - phase
+                c = _spell_some(rng, c)
+            cases.append(c)
+        # --- gammatone.sampled: every order with a non-zero phase and with phase 0 (well conditioned centre frequencies)
+        for eta in (1, 2, 3, 4, 5, 6):
+            for ph in (0.0, rng.choice([0.5, -1.25, 2.0, rng.uniform(-PI, PI)])):
+                cases.append({"entry": "gammatone", "strategy": "sampled", "freq": _f(rng.uniform(0.6, 2.5)),
+                              "bandwidth": _f(rng.uniform(0.05, 1.0)), "phase": _f(ph), "eta": eta})
+        # --- units: `f * Hz` with `s, Hz = sHz(rate)`
+        for rate in (44100, 8000, 48000.0):
+            Hz = 2 * PI / rate
+            fhz = rng.choice([100.0, 440.0, 1000.0, rng.uniform(20, rate / 2 - 20)])
+            band = rng.choice(["lowpass", "highpass"])
+            cases.append({"entry": band, "strategy": rng.choice(LP_STRATS), "cutoff": _f(fhz * Hz), "rate": rate, "fhz": _f(fhz)})
+            cases.append({"entry": "resonator", "strategy": rng.choice(["poles_exp", "freq_poles_exp", "freq_z_exp"]),
+                          "freq": _f(fhz * Hz), "bandwidth": _f(rng.uniform(10, 400) * Hz), "rate": rate, "fhz": _f(fhz)})
+            for st in ("gm90", "mg83"):
+                fhz = rng.choice([100.0, 1000.0, 4000.0, rng.uniform(20, rate / 2)])
+                cases.append(_shape(rng, {"entry": "erb", "strategy": st, "freq": _f(fhz * Hz), "Hz": _f(Hz), "rate": rate,
+                                          "fhz": _f(fhz)}))
+        # --- erb: Hz left out (hertz in, hertz out; below 7 refused), given by keyword / position, other numeric types
+        for st in ("gm90", "mg83"):
+            for f in (1000.0, 7.0, math.nextafter(7.0, 0), 6.0, 0.5, 20000.0, rng.uniform(7, 20000), rng.uniform(0, 7)):
+                cases.append(_spell_some(rng, _shape(rng, {"entry": "erb", "strategy": st, "freq": _f(f)})))
+            for f, hz in ((0.1, 2 * PI / 44100), (3.0, 1.0), (rng.uniform(0.01, 3.1), 2 * PI / rng.choice([8000, 22050, 96000]))):
+                cases.append(_spell_some(rng, _shape(rng, {"entry": "erb", "strategy": st, "freq": _f(f), "Hz": _f(hz)})))
+        # --- erb is elementwise in freq
+        for cont in ("list", "tuple", "Stream", "gen"):
+            for hz, refuse in ((None, False), (None, True), (2 * PI / 44100, False)):
+                n = rng.randint(1, 4)
+                fs = [rng.uniform(7, 20000) if hz is None else rng.uniform(0.001, 3.1) for _ in range(n)]
+                if refuse:
+                    fs.insert(rng.randint(0, n), rng.uniform(0, 6.9))      # an item the call refuses
+                c = {"entry": "erbmap", "cont": cont, "freqs": [_f(f) for f in fs]}
+                if hz is not None:
+                    c["Hz"] = _f(hz)
+                if rng.random() < 0.6:
+                    c["strategy"] = rng.choice(["gm90", "mg83"])
+                cases.append(c)
+    if scale == 1:
+        # --- boundary cut-offs, outside the contract's quantifier: coefficients only (kind model)
+        for band in ("lowpass", "highpass"):
+            for st in LP_STRATS:
+                for v in (0.0, 1e-9, 1e-5, PI - 1e-5, PI - 1e-9, PI):
+                    cases.append({"entry": band, "strategy": st, "cutoff": _f(v), "nocontract": True})
+                cases.append({"entry": band, "strategy": st, "cutoff": 0, "nocontract": True, "spell": {"cutoff": "int"}})
+        for st in RES_STRATS:
+            for f in (0.0, PI):
+                for bw in (1e-3, 1.0):
+                    cases.append({"entry": "resonator", "strategy": st, "freq": _f(f), "bandwidth": _f(bw), "nocontract": True})
+    return cases
 
 # ----------------------------------------------------------------------------------------------
 # observation of the real code
 # ----------------------------------------------------------------------------------------------
 def _fl(j):
+    """float(dec(j)) without the detour through Fraction: int / int is correctly rounded (exact for the
+    binary values the transport carries)"""
+    if type(j) is str:
+        p, sep, q = j.partition("/")
+        if sep:
+            return int(p) / int(q)
+    elif type(j) is int:
+        return float(j)
     v = dec(j)
     return v if isinstance(v, float) else float(v)
 
@@ -289,6 +586,30 @@ def _param(p):
     return _fl(p)
 
 
+def _impl_erbmap(c):
+    """erb is elementwise in `freq`: a list / tuple / Stream / generator of frequencies gives the same kind of container
+    of bandwidths; the lazy kinds are read one item at a time up to the first exception"""
+    import audiolazy as al
+    fs = [_fl(x) for x in c["freqs"]]
+    cont = c["cont"]
+    arg = {"list": list, "tuple": tuple, "Stream": lambda v: al.Stream(v), "gen": lambda v: (x for x in v)}[cont](fs)
+    fn = al.erb if "strategy" not in c else al.erb[c["strategy"]]
+    kw = {"Hz": _fl(c["Hz"])} if "Hz" in c else {}
+    try:
+        r = fn(arg, **kw)
+    except Exception as ex:
+        return {"raised": err_kind(ex), "items": []}
+    o = {"type": "generator" if type(r).__name__ == "generator" else type(r).__name__, "items": []}
+    it = iter(r)
+    for _ in fs:
+        try:
+            o["items"].append({"v": enc(float(next(it)))})
+        except Exception as ex:
+            o["items"].append({"err": err_kind(ex)})
+            break
+    return o
+
+
 def impl(c):
     """hist / combhist: the first ISO_ALWAYS of a run alone in a fresh process (harness/props/c13_hist.py:zygote_start),
     everything else in this process — and again alone in a fresh process when it disagrees (see compare)"""
@@ -315,26 +636,35 @@ def impl_here(c):
         return hist.impl_run(c)
     try:
         if e in ("lowpass", "highpass"):
-            cut = _fl(c["cutoff"])
-            return _observe(getattr(al, e)[c["strategy"]](cut), cut)
+            fn, a, kw = _real_call(c)
+            filt = fn(*a, **kw)
+            return dict(_observe(filt, _fl(c["cutoff"])), ref=_default_ref(c, filt))
         if e == "resonator":
-            f, bw = _fl(c["freq"]), _fl(c["bandwidth"])
-            return _observe(al.resonator[c["strategy"]](f, bw), f)
+            fn, a, kw = _real_call(c)
+            filt = fn(*a, **kw)
+            return dict(_observe(filt, _fl(c["freq"])), ref=_default_ref(c, filt))
         if e == "comb":
-            p = _fl(c["param"])
-            filt = al.comb[c["strategy"]](c["delay"], p)
+            fn, a, kw = _real_call(c)
+            filt = fn(*a, **kw)
             xs = hist.xs_of(c)
             return {"num": [enc(float(x)) for x in filt.numerator], "den": [enc(float(x)) for x in filt.denominator],
-                    "out": [enc(float(y)) for y in filt(xs)]}
+                    "out": [enc(float(y)) for y in filt(xs)], "ref": _default_ref(c, filt)}
         if e == "gammatone":
-            f, bw = _fl(c["freq"]), _fl(c["bandwidth"])
-            if c["strategy"] == "sampled":
-                g = al.gammatone.sampled(f, bw, phase=_fl(c["phase"]), eta=c["eta"])
-            else:
-                g = al.gammatone[c["strategy"]](f, bw)
-            return {"type": type(g).__name__, "sections": [_observe(s, f) for s in g]}
+            fn, a, kw = _real_call(c)
+            g = fn(*a, **kw)
+            f = _fl(c["freq"])
+            return {"type": type(g).__name__, "sections": [_observe(s, f) for s in g], "ref": _default_ref(c, g)}
         if e == "erb":
-            return {"value": enc(float(al.erb[c["strategy"]](_fl(c["freq"]), _fl(c["Hz"]))))}
+            fn, a, kw = _real_call(c)
+            v = fn(*a, **kw)
+            o = {"value": enc(float(v)), "type": type(v).__name__}
+            if "rate" in c:
+                # units (theorem erb_units): the bandwidth in rad/sample is the hertz formula times Hz
+                Hz = al.sHz(c["rate"])[1]
+                o["units_ref"] = enc(float(al.erb[_strategy(c)](_fl(c["fhz"])) * Hz))
+            return o
+        if e == "erbmap":
+            return _impl_erbmap(c)
         if e == "erb_constants":
             x, y = al.gammatone_erb_constants(c["n"])
             return {"value": [enc(float(x)), enc(float(y))]}
@@ -360,7 +690,9 @@ def impl_here(c):
                     cf = [al.comb[c["strategy"]](c["delay"], _fl(_cyc(c["param"], i)))]
                 consts.append([{"num": [enc(float(x)) for x in f.numerator],
                                 "den": [enc(float(x)) for x in f.denominator]} for f in cf])
-            return {"samples": [_coef_samples(f, n) for f in filts], "const": consts}
+            ids = [id(v) for f in filts for d in (f.numdict, f.dendict) for v in d.values() if isinstance(v, al.Stream)]
+            return {"samples": [_coef_samples(f, n) for f in filts], "const": consts,
+                    "shared": len(ids) != len(set(ids)), "ncoefstreams": len(ids)}
         return {"err": "bad-entry"}
     except Exception as ex:
         return {"err": err_kind(ex)}
@@ -374,11 +706,13 @@ def request(c):
     if c["entry"] == "run":
         return hist.request_run(c)
     if c["entry"] == "comb" and "sig" in c:
-        r = {k: v for k, v in c.items() if k != "sig"}
+        r = {k: v for k, v in c.items() if k not in HARNESS_KEYS}
         r["xs"] = [_f(x) for x in hist.xs_of(c)]
         return r
+    if c["entry"] == "erbmap":
+        return {k: v for k, v in c.items() if k != "cont"}
     if c["entry"] != "stream":
-        return dict(c)
+        return {k: v for k, v in c.items() if k not in HARNESS_KEYS}
     d, n = c["design"], c["take"]
     subs = []
     for i in range(n):
@@ -401,6 +735,19 @@ def _close_list(xs, ys, tol):
         return False
     scale = max([1.0] + [abs(_fl(y)) for y in ys])
     return all(abs(_fl(x) - _fl(y)) <= tol * scale for x, y in zip(xs, ys))
+
+
+def _ulp_dist(xs, ys):
+    """largest |x - y| in units of the ulp of the largest |y| (inf when the lengths differ)"""
+    if len(xs) != len(ys):
+        return float("inf")
+    ys = [_fl(y) for y in ys]
+    u = math.ulp(max([abs(y) for y in ys] + [5e-324]))
+    return max([abs(_fl(x) - y) / u for x, y in zip(xs, ys)] + [0.0])
+
+
+def _ulp_close(xs, ys, k=UTOL):
+    return _ulp_dist(xs, ys) <= k
 
 
 def _poles(den):
@@ -495,9 +842,13 @@ def _check_contract(name, obs, spec, out):
             bad("monotone", "|H| on the grid is not %s: %r" % ("increasing" if s > 0 else "decreasing", grid[:6]))
 
 
+_ULP = []          # distances seen by the comparison of the current case (read and cleared by tally)
+
+
 def _check_coefs(name, obs, model, out):
+    _ULP.append(max(_ulp_dist(obs[part], model[part]) for part in ("num", "den")))
     for part in ("num", "den"):
-        if not _close_list(obs[part], model[part], TOL):
+        if not _ulp_close(obs[part], model[part]):
             out.append(("model", name + ":coefficients", "%s: impl %r model %r" % (
                 part, [_fl(x) for x in obs[part]], [_fl(x) for x in model[part]])))
 
@@ -523,6 +874,7 @@ def _check_section(name, obs, model, w, out):
 
 def _problems(c, io, drv):
     out = []
+    del _ULP[:]
     e = c["entry"]
     if e == "hist":
         return hist.problems_hist(c, io, drv)
@@ -530,7 +882,9 @@ def _problems(c, io, drv):
         return hist.problems_combhist(c, io, drv)
     if e == "run":
         return hist.problems_run(c, io, drv)
-    name = e + "." + str(c.get("strategy", ""))
+    name = e + "." + str(_strategy(c))
+    if e == "erbmap":
+        return _problems_erbmap(c, io, drv)
     if "err" in drv:
         if io.get("err") != drv["err"]:
             out.append(("model", name + ":error", "impl %r model raises %s" % (io, drv["err"])))
@@ -538,9 +892,13 @@ def _problems(c, io, drv):
         return out
     if "err" in io:
         return [("model", name + ":raised", "impl raised " + io["err"]), ("spec", name + ":raised:" + io["err"], "impl raised " + io["err"])]
+    if io.get("ref") and not io["ref"]["same"]:
+        out.append(("spec", e + ":default-strategy", "%s(...) called directly is not %s.%s(...) with the same arguments" % (
+            e, e, io["ref"]["default"])))
     if e in ("lowpass", "highpass", "resonator"):
         _check_coefs(name, io, drv["model"], out)
-        _check_contract(name, io, drv["spec"], out)
+        if not c.get("nocontract"):
+            _check_contract(name, io, drv["spec"], out)
     elif e == "comb":
         _check_coefs(name, io, drv["model"], out)
         if not _close_list(io["out"], drv["run"], TOL):
@@ -548,7 +906,7 @@ def _problems(c, io, drv):
         if not _close_list(io["out"], drv["spec"]["out"], TOL):
             out.append(("spec", name + ":difference-equation", "delay %d, %d input samples: %s" % (
                 c["delay"], len(io["out"]), hist._first_diff(io["out"], drv["spec"]["out"]))))
-        if c["strategy"] == "tau":
+        if _strategy(c) == "tau":
             d = c["delay"]
             den = [_fl(x) for x in io["den"]]
             got = -den[d] if len(den) == d + 1 else 0.0
@@ -563,17 +921,28 @@ def _problems(c, io, drv):
             out.append(("spec", name + ":sections", "%d sections, required %d" % (len(secs), len(drv["spec"]))))
         else:
             for i, (s, m, sp) in enumerate(zip(secs, drv["model"], drv["spec"])):
-                _check_section(name + "[%d]" % i, s, m, _fl(c["freq"]), out)
+                if _strategy(c) == "klapuri":
+                    _check_coefs(name + "[%d]" % i, s, m, out)      # resonator sections: no normalisation by a measured gain
+                else:
+                    _check_section(name + "[%d]" % i, s, m, _fl(c["freq"]), out)
                 _check_contract(name, s, sp, out)
     elif e == "erb":
-        if not close(_fl(io["value"]), _fl(drv["model"]), 1e-12):
+        if not _ulp_close([io["value"]], [drv["model"]]):
             out.append(("model", name + ":value", "impl %r model %r" % (_fl(io["value"]), _fl(drv["model"]))))
+        if io.get("type") != "float":
+            out.append(("spec", name + ":type", "erb of a number returned a %s" % io.get("type")))
+        if "units_ref" in io and not _ulp_close([io["value"]], [io["units_ref"]], 8):
+            out.append(("spec", name + ":units", "erb(f*Hz, Hz) = %r but erb(f) * Hz = %r (sHz(%r))" % (
+                _fl(io["value"]), _fl(io["units_ref"]), c["rate"])))
     elif e == "erb_constants":
-        if not _close_list(io["value"], drv["model"], 1e-12):
+        if not _ulp_close(io["value"][:1], drv["model"][:1]) or not _ulp_close(io["value"][1:], drv["model"][1:]):
             out.append(("model", name + ":value", "impl %r model %r" % (io["value"], drv["model"])))
     elif e == "stream":
         name = "stream." + c["design"] + "." + c["strategy"]
         n = c["take"]
+        if io.get("shared"):
+            out.append(("spec", name + ":shared-coefficient-object", "one Stream object is the coefficient of two places of the "
+                        "cascade / filter: its items would be split between them"))
         for fi, samples in enumerate(io["samples"]):
             for i in range(n):
                 m = drv["results"][i]["model"]
@@ -587,11 +956,49 @@ def _problems(c, io, drv):
                     if not _close_list(got, k[part], 1e-12):
                         out.append(("spec", name + ":sample-by-sample", "instant %d %s: Stream-valued design %r, constant design %r" % (
                             i, part, [_fl(x) for x in got], [_fl(x) for x in k[part]])))
-                    if not _close_list(got, m[part], TOL):
+                    if not _ulp_close(got, m[part]):
                         out.append(("model", name + ":sample-by-sample", "instant %d %s: impl %r model %r" % (
                             i, part, [_fl(x) for x in got], [_fl(x) for x in m[part]])))
                     if out:
                         return out
+    return out
+
+
+def _problems_erbmap(c, io, drv):
+    """elementwise erb: the container kind is kept; an eager container (list / tuple) is the Lean `erbCallList` (all
+    items, or the ValueError of the first refused one), a lazy one (Stream / generator) the Lean `erbCallLazy` (item by
+    item up to the first refusal)   [theorem erb_elementwise]"""
+    name = "erbmap." + _strategy(c) + "." + c["cont"]
+    out = []
+
+    def bad(cl, detail):
+        out.append(("model", name + ":" + cl, detail))
+        out.append(("spec", name + ":" + cl, detail))
+    if c["cont"] in ("list", "tuple"):
+        want = drv["eager"]
+        if "err" in want:
+            if io.get("raised") != want["err"]:
+                bad("error", "impl %r, required: the call raises %s" % (io, want["err"]))
+            return out
+        want = [{"model": v} for v in want["values"]]
+    else:
+        want = drv["lazy"]
+    if "raised" in io:
+        bad("raised:" + io["raised"], "the call raised " + io["raised"])
+        return out
+    kind = {"list": "list", "tuple": "tuple", "Stream": "Stream", "gen": "generator"}[c["cont"]]
+    if io["type"] != kind:
+        out.append(("spec", name + ":type", "erb of a %s returned a %s" % (kind, io["type"])))
+    if len(io["items"]) != len(want):
+        bad("length", "%d items read, required %d" % (len(io["items"]), len(want)))
+        return out
+    for k, (got, w) in enumerate(zip(io["items"], want)):
+        if "err" in w or "err" in got:
+            if got.get("err") != w.get("err"):
+                bad("item-error", "item %d: impl %r required %r" % (k, got, w))
+        elif not _ulp_close([got["v"]], [w["model"]]):
+            bad("elementwise", "item %d (frequency %r): %r, the call on that frequency alone gives %r" % (
+                k, _fl(c["freqs"][k]), _fl(got["v"]), _fl(w["model"])))
     return out
 
 
@@ -639,6 +1046,9 @@ def nontrivial(c, io):
 
 def tally(eng, c, io):
     e = c["entry"]
+    for u in _ULP:
+        eng.count("coef_ulp", "bit-exact" if u == 0 else "<=%d ulp" % UTOL if u <= UTOL else "more (reported)")
+    del _ULP[:]
     if e == "hist":
         eng.count("entry", "hist")
         for d in c["dsgs"]:
@@ -652,6 +1062,25 @@ def tally(eng, c, io):
         hist.tally_long(eng, c, io)
         return
     eng.count("entry", e + ("." + c["design"] if e == "stream" else "") + "." + str(c.get("strategy", "")))
+    if e in DEFAULT_STRATEGY and "sig" not in c:
+        # call shape: which object is called, how the arguments travel, which are left out, their numeric types
+        eng.count("call_via", e + ":" + ("default (StrategyDict called)" if "strategy" not in c else c.get("via", "item").split(":")[0]))
+        eng.count("call_args", c.get("args", "pos"))
+        left = [k for k, _ in _param_names(c) if k not in c]
+        eng.count("call_omitted", e + ":" + (",".join(left) if left else "-"))
+        for k, t in sorted(c.get("spell", {}).items()):
+            eng.count("param_spelling", k + ":" + t)
+        if "rate" in c:
+            eng.count("units", e + ": f*Hz with sHz(%s)" % c["rate"])
+        if c.get("nocontract"):
+            eng.count("boundary", e + "." + _strategy(c) + ":" + ("0" if _fl(c.get("cutoff", c.get("freq"))) == 0 else
+                      "pi" if _fl(c.get("cutoff", c.get("freq"))) == PI else "near 0" if _fl(c.get("cutoff", c.get("freq"))) < 1 else "near pi"))
+    if e == "erbmap":
+        eng.count("erbmap", c["cont"] + ":" + ("Hz given" if "Hz" in c else "Hz omitted") + ":" + (
+            "raises" if io.get("raised") or any("err" in it for it in io["items"]) else "ok"))
+        return
+    if e == "erb":
+        eng.count("erb_branch", ("Hz given" if "Hz" in c else "Hz omitted") + ":" + ("ValueError" if "err" in io else "ok"))
     if e == "combhist" or (e == "comb" and "sig" in c):
         hist.tally_long(eng, c, io)
         if "err" in io:
@@ -664,13 +1093,13 @@ def tally(eng, c, io):
         if k in c and not isinstance(c[k], list):
             v = _fl(c[k])
             eng.count("frequency_bucket", "%.1f" % (math.floor(v * 5) / 5))
-            if e in ("lowpass", "highpass") and c["strategy"] == "z":
+            if e in ("lowpass", "highpass") and _strategy(c) == "z":
                 eng.count("z_branch", "cos==0" if math.cos(v) == 0 else "cos!=0")
     if "bandwidth" in c and not isinstance(c["bandwidth"], list):
         eng.count("bandwidth_bucket", "%.1f" % (math.floor(_fl(c["bandwidth"]) * 10) / 10))
     if e == "resonator":
         _p, kind = _poles(io["den"])
-        eng.count("resonator_poles", c["strategy"] + ":" + kind)
+        eng.count("resonator_poles", _strategy(c) + ":" + kind)
     if e == "comb":
         eng.count("comb_delay", c["delay"])
         eng.count("comb_den_len", len(io["den"]))
@@ -680,8 +1109,10 @@ def tally(eng, c, io):
         t = 64 * EPS * _cond(io["sections"][0]["num"], io["sections"][0]["den"], _fl(c["freq"]))
         eng.count("gammatone_gain_tolerance", "<1e-9" if t < 1e-9 else "<1e-6" if t < 1e-6 else "<1e-3" if t < 1e-3
                   else "<1e-1" if t < 1e-1 else ">=1e-1 (rounding dominates: check vacuous)")
-        if c["strategy"] == "sampled":
-            eng.count("gammatone_eta", c["eta"])
+        if _strategy(c) == "sampled":
+            eng.count("gammatone_eta", c.get("eta", "omitted (4)"))
+            eng.count("gammatone_eta_phase", "eta=%s:phase%s" % (c.get("eta", "omitted"), " omitted" if "phase" not in c else
+                      "=0" if _fl(c["phase"]) == 0 else "!=0"))
 
 
 def extra_checks(eng):
@@ -748,7 +1179,7 @@ def shrink(c):
             yield dict(c, take=c["take"] - 1)
         return
     for k in ("cutoff", "freq", "bandwidth", "phase", "param"):
-        if k in c:
+        if k in c and "rate" not in c and k not in c.get("spell", {}) and e != "erbmap":
             for v in _simpler(c[k]):
                 ok = (LO <= v <= HI) if k in ("cutoff", "freq") else (1e-3 <= v <= 1) if k == "bandwidth" else True
                 if ok:
@@ -761,8 +1192,15 @@ def shrink(c):
             yield dict(c, xs=xs[:-1])
         if any(_fl(x) != 0 for x in xs[1:]):
             yield dict(c, xs=[1] + [0] * (len(xs) - 1))
-    if e == "gammatone" and c["strategy"] == "sampled" and c.get("eta", 1) > 1:
+    if e == "gammatone" and _strategy(c) == "sampled" and c.get("eta", 1) > 1:
         yield dict(c, eta=c["eta"] - 1)
+    # a plainer call: same numbers, default shape
+    for k in ("spell", "args", "via", "rate"):
+        if k in c and not (k == "via" and "strategy" not in c):
+            yield {kk: v for kk, v in c.items() if kk != k and not (k == "rate" and kk == "fhz")}
+    if e == "erbmap" and len(c["freqs"]) > 1:
+        yield dict(c, freqs=c["freqs"][:-1])
+        yield dict(c, freqs=c["freqs"][1:])
 
 
 def neighbours(c):
@@ -770,7 +1208,7 @@ def neighbours(c):
     if e in ("hist", "combhist", "run"):
         return
     for k in ("cutoff", "freq", "bandwidth", "param"):
-        if k in c and not isinstance(c[k], list):
+        if k in c and not isinstance(c[k], list) and "rate" not in c and k not in c.get("spell", {}) and e != "erbmap":
             v = _fl(c[k])
             if v != v or v in (float("inf"), float("-inf")):
                 continue
@@ -783,7 +1221,7 @@ def neighbours(c):
         for d in (-1, 1):
             if c["delay"] + d >= 1:
                 yield dict(c, delay=c["delay"] + d)
-    if e == "gammatone" and c["strategy"] == "sampled":
+    if e == "gammatone" and _strategy(c) == "sampled" and "eta" in c:
         for d in (-1, 1):
             if c["eta"] + d >= 1:
                 yield dict(c, eta=c["eta"] + d)
